@@ -2,8 +2,11 @@
 from ..core import Script
 from .. import initgen
 
+from . import _nodecommon
+from .. import nodegen
+
 ID = "C01"
-SUITES = ["init"]
+SUITES = ["init", "node"]
 LEAN_MODULES = ["VpnCloud.Proofs.C01"]
 THEOREMS = ["VpnCloud.Proofs.C01." + n for n in ("readFrom_never_fatal", "readFrom_accept_genuine", "accepted_was_signed_by_trusted", "handleInit_reject_pure", "peerCrypto_reject_pure", "stale_tail_irrelevant", "success_needs_trusted_signature")]
 BATCH = 20
@@ -51,7 +54,7 @@ TECHNIQUE = "Lean 4 proof over a byte-level handshake model with ideal signature
 DESIGN_REF = "DESIGN.md section 5, C01"
 
 
-def gen(tier, rng):
+def _gen_base(tier, rng):
     thorough = tier == "thorough"
     n = 0
     for i, (ta, tb) in enumerate(initgen.trust_graphs(thorough)):
@@ -61,3 +64,13 @@ def gen(tier, rng):
     yield initgen.c01_script(rng, [1], [0], False, "shared-key", keyA=0, keyB=0)
     yield initgen.c01_script(rng, [0, 1], [1], False, "untrusted-signer")
     yield initgen.cfg_script(rng, "config-path")
+
+
+def gen(tier, rng):
+    for x in _gen_base(tier, rng):
+        yield x
+    thorough = tier == "thorough"
+    # node level: forged / mutated / misdirected handshake datagrams at a node in the states unknown sender, pending, established
+    yield nodegen.c08_script(rng.fork("node"), "node-states", thorough)
+
+obs_class, nontrivial_key = _nodecommon.with_node(obs_class, nontrivial_key)
